@@ -40,10 +40,10 @@ MIN_EVALS = {"quick": 60, "thorough": 1500}
 FLOORS = {
     "quick": {"conservation": 60, "u_checked": 100, "cmd_revert": 10, "cmd_remove": 6, "cmd_merge": 10, "cmd_pull": 2, "cmd_update": 2,
               "cmd_switch": 2, "cmd_uncommit": 2, "uncommit_disk_identical": 2, "merge_observed": 10, "conserved_backup": 5,
-              "conserved_clean_merge": 1, "conserved_conflict_helper": 2, "switch_store_second_checkout": 1},
+              "conserved_clean_merge": 1, "conserved_conflict_helper": 2, "switch_store_second_checkout": 1, "rename_only_merge": 1},
     "thorough": {"conservation": 1500, "u_checked": 2500, "cmd_revert": 300, "cmd_remove": 200, "cmd_merge": 250, "cmd_pull": 50,
                  "cmd_update": 50, "cmd_switch": 50, "cmd_uncommit": 50, "uncommit_disk_identical": 50, "merge_observed": 250,
-                 "conserved_backup": 150, "conserved_clean_merge": 25, "conserved_conflict_helper": 25, "switch_store_second_checkout": 15},
+                 "conserved_backup": 150, "conserved_clean_merge": 25, "conserved_conflict_helper": 25, "switch_store_second_checkout": 15, "rename_only_merge": 20},
 }
 ASSUMPTIONS = [
     "bzr (2a, dirstate) trees only: the oracle keys user content to file ids; git trees are not driven",
@@ -1131,7 +1131,8 @@ def fam_rename_then_revert(s):
     nb = rng.random() < 0.1
     if nb:
         argv.insert(0, "--no-backup")
-    s.run("revert", cmd_revert, argv, tp, asked=(lambda u: nb and u["fid"] is not None and sel is None),
+    s.run("revert", cmd_revert, argv, tp,
+          asked=(lambda u: nb and u["fid"] is not None and (sel is None or u["path"] in sel or u["basis_path"] in sel)),
           optclass="after-rename-only-merge" + ("+no-backup" if nb else ""))
 
 
